@@ -42,7 +42,14 @@ SetupEvents ==
                        !.tx = IF Nodes[i] = Gateway THEN <<"a08">> ELSE IF Nodes[i] = "a02" THEN <<"a04">> ELSE <<>>],
             [E0 EXCEPT !.kind = "AddVstorage", !.creator = Nodes[i], !.size = 2000000] >>])
 
-InitState == FoldLeft(LAMBDA s, e : Apply(Cfg, s, e).st, Gen.post, SetupEvents)
+\* family sidauth: two sid DIDs (s1 created by a09, s2 by a10); s1 has a second account (a11) that a key rotation can drop
+SidSetup ==
+    << [E0 EXCEPT !.kind = "Binding", !.creator = "a09", !.acc = "a09", !.did = "s1"],
+       [E0 EXCEPT !.kind = "Binding", !.creator = "a10", !.acc = "a10", !.did = "s2"],
+       [E0 EXCEPT !.kind = "Binding", !.creator = "a09", !.acc = "a11", !.did = "s1"] >>
+AllSetup == IF Family = "sidauth" THEN SetupEvents \o SidSetup ELSE SetupEvents
+
+InitState == FoldLeft(LAMBDA s, e : Apply(Cfg, s, e).st, Gen.post, AllSetup)
 
 \* ---------------------------------------------------------------- alphabet
 StoreNew(s) ==
@@ -125,12 +132,13 @@ GBlocks(s) ==
 \* ---------------------------------------------------------------- further exhaustive families
 \* did: every submitter x account x sid x proof shape; key rotations over all partitions of the bound accounts
 DidAccs == <<"a04", "a05", "a06">>
+DidBindable == DidAccs \o <<"e1">>     \* e1: an Ethereum (eip155) account: can be bound, cannot submit or pay
 Sids == <<"s1", "s2">>
 DidEvents(s) ==
     {[E0 EXCEPT !.kind = "Binding", !.creator = c, !.acc = a, !.did = d, !.amount = t, !.sigmode = m] :
-        c \in Rng(DidAccs), a \in Rng(DidAccs), d \in Rng(Sids), t \in {0, -901}, m \in {"ok", "replay"}}
-    \cup UNION {LET bound == SelectSeq(DidAccs, LAMBDA a : BoundDid(s, a) = d) IN
-               {[E0 EXCEPT !.kind = "DidUpdate", !.creator = c, !.did = d, !.tx = SetToSortSeq(rm, LAMBDA x, y : IndexOf(DidAccs, x) < IndexOf(DidAccs, y)),
+        c \in Rng(DidAccs), a \in Rng(DidBindable), d \in Rng(Sids), t \in {0, -901}, m \in {"ok", "replay"}}
+    \cup UNION {LET bound == SelectSeq(DidBindable, LAMBDA a : BoundDid(s, a) = d) IN
+               {[E0 EXCEPT !.kind = "DidUpdate", !.creator = c, !.did = d, !.tx = SetToSortSeq(rm, LAMBDA x, y : IndexOf(DidBindable, x) < IndexOf(DidBindable, y)),
                            !.datas = SelectSeq(bound, LAMBDA a : a \notin rm)] : c \in Rng(DidAccs), rm \in (SUBSET Rng(bound)) \ {{}}}
                : d \in Rng(Sids)}
     \cup {[E0 EXCEPT !.kind = "PayAddrSid", !.creator = c, !.acc = a, !.did = d] : c \in Rng(DidAccs), a \in Rng(DidAccs), d \in Rng(Sids)}
@@ -157,6 +165,34 @@ RewardEvents(s) ==
 \* declared the stranger's address; adversarial commit shapes
 AuthEvents(s) ==
     GStoreNew(s) \cup GStoreUpd(s) \cup GCompletes(s) \cup GCancels(s) \cup GSigned(s)
+    \cup {[E0 EXCEPT !.kind = "Blocks", !.n = 1]}
+
+\* sidauth: data models owned by the sid DID s1. Every signed request kind, signed with the key of EVERY sid document on
+\* chain (s1's and s2's, current and rotated-away versions) and of a key DID, under a header that names the signer's own
+\* DID or the owner (kidspoof); key rotations of s1 in between. C09 on every step: a model changes only if the key that
+\* signed belongs to a document of the owner's DID (or of a grantee's, for updates / termination).
+SidSigners(s) == UNION {Rng(v.versions) : v \in Rng(s.versions)} \cup {"d1"}
+\* (a document of the owner's own DID under the owner's DID is simply a valid header: the harness normalises it to "ok")
+SidModes(s, sg, ow) == {"ok"} \cup (IF IsSidDocOnChain(s, sg) /\ SidOfDoc(s, sg) = ow THEN {} ELSE {"kidspoof"})
+SidAuthEvents(s) ==
+    UNION {{[E0 EXCEPT !.kind = "Store", !.creator = Gateway, !.provider = Gateway, !.gw = Gateway, !.owner = "s1", !.signer = sg, !.sigmode = sm,
+                       !.data = "D1", !.commit = "D1", !.cseg = <<"D1">>, !.op = 1, !.dur = 3600, !.replica = 1, !.timeout = 1800,
+                       !.size = 1000, !.alias = "alD1"] : sm \in SidModes(s, sg, "s1")}
+           : sg \in (IF HasMeta(s, "D1") THEN {} ELSE SidSigners(s))}
+    \cup Completes(s)
+    \cup UNION {UNION {{[E0 EXCEPT !.kind = "Terminate", !.creator = Gateway, !.provider = Gateway, !.owner = ow, !.signer = sg, !.sigmode = sm, !.data = m.data],
+                 [E0 EXCEPT !.kind = "Renew", !.creator = Gateway, !.provider = Gateway, !.owner = ow, !.signer = sg, !.sigmode = sm, !.datas = <<m.data>>,
+                            !.dur = 3600, !.timeout = 1800],
+                 [E0 EXCEPT !.kind = "Permission", !.creator = Gateway, !.provider = Gateway, !.owner = ow, !.signer = sg, !.sigmode = sm, !.data = m.data,
+                            !.rw = IF m.rw = <<>> THEN <<"s2">> ELSE <<>>],
+                 [E0 EXCEPT !.kind = "Store", !.creator = Gateway, !.provider = Gateway, !.gw = Gateway, !.owner = ow, !.signer = sg, !.sigmode = sm,
+                            !.data = m.data, !.commit = m.commit \o "|" \o "c" \o ToString(s.oc), !.cseg = <<m.commit, "c" \o ToString(s.oc)>>, !.op = 1,
+                            !.dur = 3600, !.replica = 1, !.timeout = 1800, !.size = 1000, !.alias = m.alias]}
+                 : sm \in SidModes(s, sg, ow)}
+                : m \in Rng(s.metas), sg \in SidSigners(s), ow \in {"s1", "s2"}}
+    \cup (IF BoundDid(s, "a11") = "s1"
+          THEN {[E0 EXCEPT !.kind = "DidUpdate", !.creator = "a09", !.did = "s1", !.tx = <<"a11">>, !.datas = <<"a09">>]}
+          ELSE {[E0 EXCEPT !.kind = "Binding", !.creator = "a09", !.acc = "a11", !.did = "s1"]})
     \cup {[E0 EXCEPT !.kind = "Blocks", !.n = 1]}
 
 \* generator extras: did, staking and fault events in the same behaviours as the storage life cycle
@@ -205,6 +241,7 @@ Events(s) ==
       [] Family = "super"  -> SuperEvents(s)
       [] Family = "reward" -> RewardEvents(s)
       [] Family = "auth"   -> AuthEvents(s)
+      [] Family = "sidauth" -> SidAuthEvents(s)
       [] Family = "gen" -> GStoreNew(s) \cup GStoreUpd(s) \cup GCompletes(s) \cup GCancels(s) \cup GSigned(s)
                            \cup Migrates(s) \cup Claims(s) \cup GBlocks(s) \cup GenDid(s) \cup GenStaking(s) \cup GenFaults(s)
       [] Family = "pay" -> StoreNew(s) \cup StoreUpd(s) \cup Completes(s) \cup Cancels(s) \cup Terminates(s) \cup Renews(s)
@@ -223,7 +260,7 @@ Init ==
     /\ bad = {}
     /\ lastEv = E0
     /\ depth = 0
-    /\ hist = SetupEvents
+    /\ hist = AllSetup
 
 Next ==
     /\ depth < MaxEvents
